@@ -718,12 +718,68 @@ func (s *script) redistribute(outputs int, amt, fpb types.Currency) {
 	s.checkReservedAreInputs("redistribute", before, allIn)
 }
 
-func (s *script) split(n int, min types.Currency) {
+// storeFails: the store refuses the next read (a dependency failing in the middle): whichever
+// request is made, it must fail and leave spendable outputs and reservations as they were.
+// Nothing is sent to the model: a failed read is not a step of it.
+func (s *script) storeFails() {
+	e, rng := s.e, s.rng
+	before := s.spendableSet()
+	bal, err := e.w.Balance()
+	must(err)
+	amt := bal.Spendable.Div64(2).Add(types.NewCurrency64(1))
+	e.ws.failOnce(true)
+	var what string
+	func() {
+		defer func() {
+			if r := recover(); r != nil {
+				err = nil
+				s.c.Oracle("store-failure-panic", "a wallet call panicked when the store failed: %v", r)
+			}
+		}()
+		switch rng.Intn(4) {
+		case 0:
+			what = "FundTransaction"
+			txn := types.Transaction{}
+			_, err = e.w.FundTransaction(&txn, amt, rng.Bool())
+		case 1:
+			what = "FundV2Transaction"
+			txn := types.V2Transaction{}
+			_, _, err = e.w.FundV2Transaction(&txn, amt, rng.Bool())
+		case 2:
+			what = "Redistribute"
+			_, _, _, err = e.w.Redistribute(2, amt.Div64(3), types.ZeroCurrency)
+		default:
+			what = "SplitUTXO"
+			_, err = e.w.SplitUTXO(2, types.NewCurrency64(1)) // (with DefragThreshold < 2 the argument check fails first)
+		}
+	}()
+	e.ws.failOnce(false)
+	s.kinds["storefail"]++
+	if err == nil {
+		s.c.Oracle("store-failure-ignored", "%s succeeded although the store could not be read", what)
+	}
+	after := s.spendableSet()
+	for id := range before {
+		if !after[id] {
+			s.c.Oracle("failed-request-reserved", "after %s failed on a store error output %d is no longer spendable", what, e.ids[id])
+		}
+	}
+}
+
+// split calls SplitUTXO; with failPool the chain manager refuses the wallet's next pool insertion
+// (the call must then fail and leave everything as it was).
+func (s *script) split(n int, min types.Currency, failPool bool) {
 	e := s.e
 	h := e.nextH
 	e.nextH++
 	fee := e.w.RecommendedFee()
-	op := fmt.Sprintf("split %d %d %s %s", h, max(n, 0), cur(min), cur(fee)) // a negative count behaves like 0
+	name := "split"
+	if failPool {
+		name = "splitfail"
+		e.gate.failOnce(true)
+		defer e.gate.failOnce(false)
+	}
+	op := fmt.Sprintf("%s %d %d %s %s", name, h, max(n, 0), cur(min), cur(fee)) // a negative count behaves like 0
 	pv := e.pool()
 	before := s.spendableSet()
 	born := time.Now()
@@ -743,8 +799,11 @@ func (s *script) split(n int, min types.Currency) {
 		return
 	}
 	s.kinds["split"]++
+	if err == nil && failPool && len(txn.SiacoinInputs) > 0 {
+		s.c.Oracle("split-ignored-pool-failure", "SplitUTXO reported success although the pool refused its transaction")
+	}
 	if err != nil {
-		s.kinds["split-err"]++
+		s.kinds[name+"-err"]++
 		s.emit(op, "err")
 		after := s.spendableSet()
 		for id := range before {
